@@ -147,7 +147,7 @@ def run(pid, tier):
         import chk_modfile
         base = {"maxlen": 4 if tier == "quick" else 5, "maxentries": 2 if tier == "quick" else 3}
         mrecs = []
-        for mode, inv in (("Paths", "PathsOK"), ("Manifest", "OneErrorPerOffender"), ("Odd", "OddOK"), ("OddSchema", "OddSchemaOK"), ("Styled", "StyledOK")):
+        for mode, inv in (("Paths", "PathsOK"), ("Manifest", "OneErrorPerOffender"), ("Odd", "OddOK"), ("OddSchema", "OddSchemaOK"), ("Styled", "StyledOK"), ("Broken", "BrokenOK")):
             mrecs += run_tlc("ModFile", chk_modfile.CFG % dict(base, mode=mode, inv=inv), sc, cache=True, timeout=3000).records
         mi, mo = sc.path("c08e.in.ndjson"), sc.path("c08e.out.ndjson")
         write_ndjson(mi, mrecs)
@@ -156,6 +156,8 @@ def run(pid, tier):
             chk.add("modfile_inputs")
             if o["result"] == "panic":
                 chk.violation("TransformModFile panics on a manifest of the ModFile.tla universe: %s" % (o.get("msg") or "")[:160], {"entry": "TransformModFile", "text": r["text"], "result": o, "model_derived": True})
+            elif r["rec"] == "broken" and o["result"] == "ok":
+                chk.violation("TransformModFile accepts a text that is not YAML (the syntax error is not reported): %r" % r["text"][:80], {"entry": "TransformModFile", "text": r["text"], "result": o, "model_derived": True})
         log("e: %d fga.mod manifests of the ModFile.tla universe through TransformModFile" % len(mrecs))
 
         # ---- b. degenerate protobuf models
